@@ -196,7 +196,7 @@ class RealRun(Harness):
     prop, ob = PROP, 'O3'
     width = 64
     BAD = ['refused', 'unresolvable', 'silent', 'early-close', 'bad-block-size', 'truncated-kexinit', 'garbage-kexinit', 'probe-garbage', 'type-byte-only-kexinit', 'probe-type-byte-only',
-           'ssh1-fallback']
+           'ssh1-fallback', 'unresolvable-idna']
 
     def __init__(self, bad, pos, json, verbose=False):
         self.bad, self.pos, self.json, self.verbose = bad, pos, json, verbose
@@ -253,6 +253,9 @@ class RealRun(Harness):
             def getaddrinfo(self_, host, port, family=0, stype=0, *a):
                 if host == 'bad' and self.bad == 'unresolvable':
                     raise socket.gaierror(-2, 'Name or service not known')
+                if host == 'bad' and self.bad == 'unresolvable-idna':
+                    # what getaddrinfo() raises for a name that cannot be IDNA-encoded ('a..b', a label of more than 63 characters)
+                    raise UnicodeError('encoding with \'idna\' codec failed (UnicodeError: label empty or too long)')
                 self_.cur = host
                 return [(socket.AF_INET, socket.SOCK_STREAM, 6, '', (host, port))]
 
@@ -308,7 +311,7 @@ class RealRun(Harness):
             yield 'two-result-blocks', obs['seps'] == 1 and obs['good']
             yield 'each-block-names-its-target', obs['good'] and obs['bad']
         yield 'exit-status-ranked-max', r in (1, -1) or (self.bad.startswith('probe-') and r in (0, 2, 3))
-        if self.bad in ('refused', 'unresolvable', 'silent'):
+        if self.bad in ('refused', 'unresolvable', 'silent', 'unresolvable-idna'):
             # a target that cannot be reached is a connection error (the healthy target here rates below it), reported as such - not an internal error
             yield 'unreachable-target-is-a-connection-error', r == 1 and not obs['traceback']
         yield 'nothing-printed-outside-the-blocks', not obs['leaked']
